@@ -62,7 +62,7 @@ size_t first_index_by_handle(uint16_t handle) __CPROVER_ensures(__CPROVER_return
 /* Service: what the type carries */
 struct service { size_t number_of_attributes; bool is_128bit; };
 /* witnesses (all units) */
-size_t W_start, W_end, W_index, W_vsize, W_room, W_used, W_out_used, W_out_room; bool W_found, W_filter, W_iter, W_is128_filter, W_stoped, W_first, W_is128; struct service W_svc; int W_access_result; uint16_t W_attr_uuid;
+uint16_t W_end_handle; size_t W_start, W_index, W_vsize, W_room, W_used, W_out_used, W_out_room; bool W_found, W_filter, W_iter, W_is128_filter, W_stoped, W_first, W_is128; struct service W_svc; int W_access_result; uint16_t W_attr_uuid;
 /* factories of attribute_access_arguments, access functions: abstract, the call is recorded */
 struct a_rec { size_t access_calls; int access_type; const uint8_t* access_buf; size_t access_size; int access_id; size_t decl_reads; } G_a;
 static inline struct attribute_access_arguments args_compare_value(const uint8_t* begin, const uint8_t* end) { return (struct attribute_access_arguments){ attribute_access_type_compare_value, (uint8_t*)begin, (size_t)(end - begin), 0 }; }
@@ -94,14 +94,15 @@ __CPROVER_ensures(__CPROVER_return_value ? (self->current_ == &G_buf[0] + W_used
                                          : self->current_ == &G_buf[0] + W_used)
 __CPROVER_assigns(self->current_, __CPROVER_object_whole(G_buf))
 {{cf_call}}
-struct sbg { size_t starting_index_; size_t ending_index_; size_t index_; struct collect_find* iterator_; const struct value_filter* filter_; bool* found_; };
+struct sbg { size_t starting_index_; uint16_t ending_handle_; size_t index_; struct collect_find* iterator_; const struct value_filter* filter_; bool* found_; };
 struct s_rec { size_t filter_calls, iter_calls; uint16_t iter_start, iter_end; size_t filter_index; } G_sr;
-#define IN_RANGE (W_start != invalid_attribute_index && W_start <= W_index && (W_index <= W_end || W_end == invalid_attribute_index))
+/* the service that starts at attribute W_index is in the requested range: not in front of the first attribute of the range, and its handle is not above the ending handle */
+#define IN_RANGE (W_start != invalid_attribute_index && W_start <= W_index && G_H[W_index] <= W_end_handle)
 #define SVC_OK(s) (__CPROVER_is_fresh(s, sizeof(struct service)) && (s)->number_of_attributes == W_svc.number_of_attributes && (s)->is_128bit == W_svc.is_128bit && W_svc.number_of_attributes >= 1 && W_svc.number_of_attributes <= N_MAX && W_index < N_MAX && W_index + W_svc.number_of_attributes <= G_N)
 /* services_by_group< Iterator, Filter, ... >::each< Service >(): the service whose declaration is attribute index_ is offered to the filter iff it lies in the requested range; it is reported
    (first handle, last handle) iff the filter accepts its declaration; the walk always moves on by the service's number of attributes */
 void sbg_each(struct sbg* self, const struct service* service)
-__CPROVER_requires(TABLE_OK && __CPROVER_is_fresh(self, sizeof(struct sbg)) && self->starting_index_ == W_start && self->ending_index_ == W_end && self->index_ == W_index && W_index < G_N && SVC_OK(service)
+__CPROVER_requires(TABLE_OK && __CPROVER_is_fresh(self, sizeof(struct sbg)) && self->starting_index_ == W_start && self->ending_handle_ == W_end_handle && self->index_ == W_index && W_index < G_N && SVC_OK(service)
     && __CPROVER_is_fresh(self->found_, sizeof(bool)) && *self->found_ == W_found && G_sr.filter_calls == 0 && G_sr.iter_calls == 0)
 __CPROVER_ensures(self->index_ == W_index + W_svc.number_of_attributes)
 __CPROVER_ensures(G_sr.filter_calls == (IN_RANGE ? 1 : 0) && (IN_RANGE ==> G_sr.filter_index == W_index) && G_sr.iter_calls == ((IN_RANGE && W_filter) ? 1 : 0))
@@ -128,14 +129,14 @@ __CPROVER_assigns(__CPROVER_object_whole(G_out), G_a.decl_reads, G_rr)
 { ++G_rr.calls; G_rr.index = starting_index; G_rr.filter128 = is_128bit_filter; /* ghost recording, then the real body */
 {{rpsr}}
 }
-struct cps { uint8_t** output_; uint8_t* end_; size_t index_; size_t starting_index_; size_t ending_index_; bool stoped_; bool first_; bool is_128bit_uuid_; uint8_t* attribute_data_size_; int server_; };
+struct cps { uint8_t** output_; uint8_t* end_; size_t index_; size_t starting_index_; uint16_t ending_handle_; bool stoped_; bool first_; bool is_128bit_uuid_; uint8_t* attribute_data_size_; int server_; };
 uint8_t* G_cursor; uint8_t G_ads;
 #define PRIMARY_AT (G_attr[W_index].uuid == GATT_PRIMARY_SERVICE)
 #define CPS_TAKES (!W_stoped && IN_RANGE && PRIMARY_AT)
 /* collect_primary_services< ... >::each< Service >(): the service whose declaration is attribute index_ contributes an entry only if it is in the requested range AND its declaration is of
    type «Primary Service»; a secondary service neither contributes nor influences the UUID size of the response; the walk always moves on by the service's number of attributes */
 void cps_each(struct cps* self, const struct service* service)
-__CPROVER_requires(TABLE_OK && __CPROVER_is_fresh(self, sizeof(struct cps)) && self->starting_index_ == W_start && self->ending_index_ == W_end && self->index_ == W_index && W_index < G_N && SVC_OK(service)
+__CPROVER_requires(TABLE_OK && __CPROVER_is_fresh(self, sizeof(struct cps)) && self->starting_index_ == W_start && self->ending_handle_ == W_end_handle && self->index_ == W_index && W_index < G_N && SVC_OK(service)
     && self->stoped_ == W_stoped && self->first_ == W_first && self->is_128bit_uuid_ == W_is128 && W_out_used <= W_out_room && W_out_room <= 64 && G_rr.calls == 0)
 __CPROVER_requires(__CPROVER_pointer_equals(self->output_, &G_cursor) && __CPROVER_pointer_equals(self->attribute_data_size_, &G_ads) && __CPROVER_pointer_equals(self->end_, &G_out[0] + W_out_room) && G_cursor == &G_out[0] + W_out_used)
 __CPROVER_ensures(self->index_ == W_index + W_svc.number_of_attributes)
@@ -148,7 +149,7 @@ __CPROVER_assigns(self->index_, self->first_, self->is_128bit_uuid_, self->stope
 {{cps_each}}
 '''
 HARN = r'''
-#define SETUP G_N = nondet_size(); W_start = nondet_size(); W_end = nondet_size(); W_index = nondet_size(); W_found = nondet_bool(); W_filter = nondet_bool(); W_iter = nondet_bool(); W_svc.number_of_attributes = nondet_size(); W_svc.is_128bit = nondet_bool(); \
+#define SETUP G_N = nondet_size(); W_start = nondet_size(); W_end_handle = nondet_u16(); W_index = nondet_size(); W_found = nondet_bool(); W_filter = nondet_bool(); W_iter = nondet_bool(); W_svc.number_of_attributes = nondet_size(); W_svc.is_128bit = nondet_bool(); \
   W_access_result = nondet_int(); W_attr_uuid = nondet_u16(); W_vsize = nondet_size(); W_room = nondet_size(); W_used = nondet_size(); W_out_used = nondet_size(); W_out_room = nondet_size(); W_is128_filter = nondet_bool(); W_stoped = nondet_bool(); W_first = nondet_bool(); W_is128 = nondet_bool(); \
   G_a = (struct a_rec){ 0 }; BT_KNOWN_EXCLUDE()
 '''
@@ -170,13 +171,55 @@ void h_cf_size(void) { SETUP; struct collect_find* c; cf_size(c); BT_CANARY(); }
 void h_sbg_each(void) { SETUP; struct sbg* s; struct service* v; G_sr = (struct s_rec){ 0 }; sbg_each(s, v); BT_CANARY(); }
 '''), enforce=['sbg_each'], replace=['vf_call', 'cf_call', 'first_index_by_handle']),
     dict(name='read_by_group_type', extracts={k: v for k, v in EX.items() if k in BITS_EXTRACTS or k in ('inv_index', 'cps_each', 'rpsr')},
-         code=(CODE[:CODE.index('/* ================= Find By Type Value')] + '#define IN_RANGE (W_start != invalid_attribute_index && W_start <= W_index && (W_index <= W_end || W_end == invalid_attribute_index))\n'
+         code=(CODE[:CODE.index('/* ================= Find By Type Value')] + '#define IN_RANGE (W_start != invalid_attribute_index && W_start <= W_index && G_H[W_index] <= W_end_handle)\n'
                '#define SVC_OK(s) (__CPROVER_is_fresh(s, sizeof(struct service)) && (s)->number_of_attributes == W_svc.number_of_attributes && (s)->is_128bit == W_svc.is_128bit && W_svc.number_of_attributes >= 1 && W_svc.number_of_attributes <= N_MAX && W_index < N_MAX && W_index + W_svc.number_of_attributes <= G_N)\n'
                + CODE2 + HARN + r'''
 void h_read_primary_service_response(void) { SETUP; struct service* v; uint8_t* o; uint8_t* e; read_primary_service_response(v, o, e, W_index, W_is128_filter); BT_CANARY(); }
 void h_cps_each(void) { SETUP; struct cps* s; struct service* v; G_rr = (struct r_rec){ 0 }; cps_each(s, v); BT_CANARY(); }
 '''), enforce=['read_primary_service_response', 'cps_each'], replace=['service_declaration_read', 'first_index_by_handle', 'read_primary_service_response'], replay=dict(src='replay/c03_replay.cpp', cxxflags=['-DNDEBUG'])),
 ]
+
+# ------------------------------------------------------------------ the requested handle range (constructors of the two functors; C02's clause 'only services inside start..end')
+# in a constructor a reference member is bound (pointer assignment), not assigned through
+R_CTOR = [r for r in R if r[0] not in (r'self->found_\b', r'self->attribute_data_size_(\s*)=', r'self->output_ = read_primary_service_response')]
+EX['cps_ctor'] = dict(file=SRV, scope=CPS, locate=r'collect_primary_services\( std::uint8_t\*& output, std::uint8_t\* end, std::uint16_t starting_index, std::uint16_t starting_handle, std::uint16_t ending_handle, std::uint8_t& attribute_data_size, Server& server \)',
+                      init_list=True, rules=R_CTOR)
+EX['sbg_ctor'] = dict(file=SRV, scope=SBG, locate=r'services_by_group\( std::uint16_t starting_handle, std::uint16_t ending_handle, Iterator& iterator, const Filter& filter, bool& found \)', init_list=True, rules=R_CTOR)
+RANGE = CODE[:CODE.index('/* ================= Find By Type Value')].replace('size_t first_index_by_handle(uint16_t handle) __CPROVER_ensures(__CPROVER_return_value == invalid_attribute_index || __CPROVER_return_value < G_N) __CPROVER_assigns();', '') + r"""
+size_t G_i;   /* ghost: any attribute */
+/* handle_index_mapping< Server >::first_index_by_handle (contract proved for the real function in C04): the least index whose handle is >= handle */
+size_t first_index_by_handle(uint16_t handle)
+__CPROVER_requires(TABLE_OK && G_i < N_MAX)
+__CPROVER_ensures(__CPROVER_return_value == invalid_attribute_index ? (G_i < G_N ==> G_H[G_i] < handle)
+    : (__CPROVER_return_value < G_N && G_H[__CPROVER_return_value] >= handle && (G_i < __CPROVER_return_value ==> G_H[G_i] < handle) && ((G_i >= __CPROVER_return_value && G_i < G_N) ==> G_H[G_i] >= handle)))
+__CPROVER_assigns();
+struct value_filter; struct collect_find;
+struct sbg { size_t starting_index_; uint16_t ending_handle_; size_t index_; struct collect_find* iterator_; const struct value_filter* filter_; bool* found_; };
+struct cps { uint8_t** output_; uint8_t* end_; size_t index_; size_t starting_index_; uint16_t ending_handle_; bool stoped_; bool first_; bool is_128bit_uuid_; uint8_t* attribute_data_size_; int server_; };
+uint16_t W_starting_handle, W_ending_handle;
+/* the range test each() applies to a service that starts at attribute G_i ... */
+#define EACH_TAKES(self) ((self)->starting_index_ != invalid_attribute_index && (self)->starting_index_ <= G_i && G_H[G_i] <= (self)->ending_handle_)
+/* ... holds exactly for the services whose declaration handle lies inside the requested start..end */
+#define RANGE_EXACT(self) (G_i < G_N ==> (EACH_TAKES(self) == (G_H[G_i] >= W_starting_handle && G_H[G_i] <= W_ending_handle)))
+void cps_ctor(struct cps* self, uint8_t** output, uint8_t* end, uint16_t starting_index, uint16_t starting_handle, uint16_t ending_handle, uint8_t* attribute_data_size, int server)
+__CPROVER_requires(TABLE_OK && G_i < N_MAX && __CPROVER_is_fresh(self, sizeof(struct cps)) && starting_handle == W_starting_handle && ending_handle == W_ending_handle && starting_index == 1)
+__CPROVER_ensures(RANGE_EXACT(self))
+/* the walk starts with the first service, nothing collected yet */
+__CPROVER_ensures((self->index_ == invalid_attribute_index || (self->index_ < G_N && G_H[self->index_] >= 1 && (G_i < self->index_ ==> G_H[G_i] < 1))) && !self->stoped_ && self->first_ && self->output_ == output && self->end_ == end && self->attribute_data_size_ == attribute_data_size)
+__CPROVER_assigns(__CPROVER_object_whole(self))
+{{cps_ctor}}
+void sbg_ctor(struct sbg* self, uint16_t starting_handle, uint16_t ending_handle, struct collect_find* iterator, const struct value_filter* filter, bool* found)
+__CPROVER_requires(TABLE_OK && G_i < N_MAX && __CPROVER_is_fresh(self, sizeof(struct sbg)) && starting_handle == W_starting_handle && ending_handle == W_ending_handle)
+__CPROVER_ensures(RANGE_EXACT(self))
+__CPROVER_ensures(self->index_ == 0 && self->iterator_ == iterator && self->filter_ == filter && self->found_ == found)
+__CPROVER_assigns(__CPROVER_object_whole(self))
+{{sbg_ctor}}
+#define SETUP G_N = nondet_size(); G_i = nondet_size(); W_starting_handle = nondet_u16(); W_ending_handle = nondet_u16(); BT_KNOWN_EXCLUDE()
+void h_cps_ctor(void) { SETUP; struct cps* s; uint8_t* o; uint8_t a; cps_ctor(s, &o, o, 1, W_starting_handle, W_ending_handle, &a, 0); BT_CANARY(); }
+void h_sbg_ctor(void) { SETUP; struct sbg* s; bool f; sbg_ctor(s, W_starting_handle, W_ending_handle, 0, 0, &f); BT_CANARY(); }
+"""
+UNITS.append(dict(name='range', extracts={k: v for k, v in EX.items() if k in BITS_EXTRACTS or k in ('inv_index', 'cps_ctor', 'sbg_ctor')}, code=RANGE,
+                  enforce=['cps_ctor', 'sbg_ctor'], replace=['first_index_by_handle'], replay=dict(src='replay/c03_replay.cpp', cxxflags=['-DNDEBUG'])))
 META = dict(
     level='other',
     explanation="The run-time bodies of primary service discovery (server.hpp, service.hpp), for every table size, index, range, buffer fill and service shape: value_filter::operator() "
